@@ -1435,6 +1435,36 @@ func (c *c13ctx) underUnary(f c13rt) c13rt {
 }
 
 func (c *c13ctx) runFaults(n int) {
+	// programs kept to be run AGAIN after all the later compilations (an application compiles its rule set first and
+	// evaluates later): the position a program reports does not depend on what was compiled after it
+	type kept struct {
+		k    c13case
+		prog *vm.Program
+		text string
+	}
+	var later []kept
+	defer func() {
+		for _, kp := range later {
+			r, pan := c13safeRun(kp.prog, c.env)
+			if pan != nil {
+				r.err = fmt.Errorf("vm.Run panicked: %v", pan)
+			}
+			c.rep.hist("fault run repeated after later compilations")
+			k := kp.k
+			k.Fault += " (run again after later compilations)"
+			if r.err == nil || r.err.Error() != kp.text {
+				got := "no error"
+				if r.err != nil {
+					got = r.err.Error()
+				}
+				c.rep.Evaluations++
+				c.rep.fail(Failure{Key: "C13-wrong-position", What: "a program reports another error when it is run again after other expressions were compiled", Input: k,
+					Want: kp.text, Got: got, Replay: c.replayArg(k)})
+				continue
+			}
+			c.judge(k, r.err)
+		}
+	}()
 	for t := 0; t < n; t++ {
 		f := c.failing()
 		if c.rng.Intn(4) == 0 {
@@ -1468,6 +1498,9 @@ func (c *c13ctx) runFaults(n int) {
 			c.rep.hist("fault run: " + f.at.kind)
 			c.judge(k, r.err)
 			c.countDistinct(k)
+			if len(later) < 200 && t%3 == 0 {
+				later = append(later, kept{k, prog, r.err.Error()})
+			}
 			if len(c.rep.Samples) < 8 && t%131 == 7 && m.typed && m.opt {
 				c.rep.Samples = append(c.rep.Samples, k)
 			}
